@@ -37,7 +37,8 @@ def run_traces(ctx: Ctx, specs: list[dict], prefixes: tuple[str, ...], *, label=
         shapes.add(tuple(e["e"] for e in r["trace"]))
         conf = sorted(c for c in v if c.startswith("Conf_"))
         if conf and not accept_conf:
-            raise Machinery(f"specification cannot follow a real trace ({conf}); spec={json.dumps(r['spec'])}")
+            # the specification cannot follow this trace: no verdict from it (exit 2 unless a violation is found)
+            ctx.conf_failures.append(f"specification cannot follow a real trace ({conf}); spec={json.dumps(r['spec'])}")
         mine = sorted(c for c in v if c.startswith(prefixes))
         for c in v:
             if not c.startswith(prefixes) and not c.startswith("Conf_"):
